@@ -96,6 +96,10 @@ func encodeCSV(ctx context.Context, fp io.Writer, view *View, options option.Exp
 }
 
 func encodeFixedLengthFormat(ctx context.Context, fp io.Writer, view *View, options option.ExportOptions) error {
+	// A value that is too long for its field or cannot be written in the encoding is refused only when the writer
+	// comes to it. The records before it must not have reached fp by then, so they are collected first.
+	var buf bytes.Buffer
+
 	if options.DelimiterPositions == nil {
 		m := fixedlen.NewMeasure()
 		m.Encoding = options.Encoding
@@ -142,7 +146,7 @@ func encodeFixedLengthFormat(ctx context.Context, fp io.Writer, view *View, opti
 		}
 
 		options.DelimiterPositions = m.GeneratePositions()
-		w, err := fixedlen.NewWriter(fp, options.DelimiterPositions, options.LineBreak, options.Encoding)
+		w, err := fixedlen.NewWriter(&buf, options.DelimiterPositions, options.LineBreak, options.Encoding)
 		if err != nil {
 			return NewDataEncodingError(err.Error())
 		}
@@ -161,7 +165,7 @@ func encodeFixedLengthFormat(ctx context.Context, fp io.Writer, view *View, opti
 		}
 
 	} else {
-		w, err := fixedlen.NewWriter(fp, options.DelimiterPositions, options.LineBreak, options.Encoding)
+		w, err := fixedlen.NewWriter(&buf, options.DelimiterPositions, options.LineBreak, options.Encoding)
 		if err != nil {
 			return NewDataEncodingError(err.Error())
 		}
@@ -204,6 +208,10 @@ func encodeFixedLengthFormat(ctx context.Context, fp io.Writer, view *View, opti
 		if err = w.Flush(); err != nil {
 			return NewSystemError(err.Error())
 		}
+	}
+
+	if _, err := fp.Write(buf.Bytes()); err != nil {
+		return NewSystemError(err.Error())
 	}
 	return nil
 }
@@ -455,7 +463,11 @@ func encodeLTSV(ctx context.Context, fp io.Writer, view *View, options option.Ex
 		hfields[i] = view.Header[i].Column
 	}
 
-	w, err := ltsv.NewWriter(fp, hfields, options.LineBreak, options.Encoding)
+	// The writer refuses a value that cannot be written in LTSV only when it comes to that value.
+	// The records before it must not have reached fp by then, so they are collected first.
+	var buf bytes.Buffer
+
+	w, err := ltsv.NewWriter(&buf, hfields, options.LineBreak, options.Encoding)
 	if err != nil {
 		return NewDataEncodingError(err.Error())
 	}
@@ -474,6 +486,9 @@ func encodeLTSV(ctx context.Context, fp io.Writer, view *View, options option.Ex
 		}
 	}
 	if err = w.Flush(); err != nil {
+		return NewSystemError(err.Error())
+	}
+	if _, err = fp.Write(buf.Bytes()); err != nil {
 		return NewSystemError(err.Error())
 	}
 	return nil
